@@ -252,14 +252,20 @@ theorem tyFacts (k ty : Text) (h : lookup Gen.NUMPY_TO_DAP2_TYPEMAP k = some ty)
 
 def BaseOk (b : BaseV) : Prop := NameOk b.name ∧ (∀ d ∈ b.dims, NameOk d) ∧ (∀ n ∈ b.shape, 0 ≤ n)
 
+theorem effShape_mem {b : BaseV} {sq : Nat} {n : Int} (h : n ∈ effShape b sq) : n ∈ b.shape := by
+  unfold effShape at h
+  split at h
+  · exact h
+  · exact List.mem_of_mem_drop h
+
 def entries (b : BaseV) (sq : Nat) : List Entry :=
-  if b.dims ≠ [] then (b.dims.zip (b.shape.drop sq)).map fun p => (some p.1, p.2)
-  else if (b.shape.drop sq).length = 1 then (b.shape.drop sq).map fun n => (some b.name, n)
-  else (b.shape.drop sq).map fun n => (none, n)
+  if b.dims ≠ [] then (b.dims.zip (effShape b sq)).map fun p => (some p.1, p.2)
+  else if (effShape b sq).length = 1 then (effShape b sq).map fun n => (some b.name, n)
+  else (effShape b sq).map fun n => (none, n)
 
 theorem shapeText_entries (b : BaseV) (sq : Nat) : shapeText b sq = (entries b sq).flatMap entryText := by
   unfold shapeText entries
-  generalize List.drop sq b.shape = sh
+  generalize effShape b sq = sh
   by_cases h1 : b.dims ≠ []
   · rw [if_pos h1, if_pos h1]; simp only [List.flatMap_map, entryText]
   · rw [if_neg h1, if_neg h1]
@@ -268,9 +274,9 @@ theorem shapeText_entries (b : BaseV) (sq : Nat) : shapeText b sq = (entries b s
     · rw [if_neg h2, if_neg h2]; simp only [List.flatMap_map, entryText]
 
 theorem normBase_entries (b : BaseV) (sq : Nat) :
-    normBase b sq = ⟨b.name, normTy b.dt, (entries b sq).map (·.2), (entries b sq).filterMap (·.1)⟩ := by
+    normBase b sq = ⟨b.name, normTy b.dt, (entries b sq).map (·.2), (entries b sq).filterMap (·.1), true⟩ := by
   unfold normBase entries
-  generalize List.drop sq b.shape = sh
+  generalize effShape b sq = sh
   by_cases h1 : b.dims ≠ []
   · rw [if_pos h1, if_pos h1]; simp [List.filterMap_map, Function.comp_def]
   · rw [if_neg h1, if_neg h1]
@@ -281,7 +287,7 @@ theorem normBase_entries (b : BaseV) (sq : Nat) :
 theorem entries_ok {b : BaseV} (hb : BaseOk b) (sq : Nat) : ∀ e ∈ entries b sq, EntryOk e := by
   intro e he
   unfold entries at he
-  have hsh : ∀ n ∈ b.shape.drop sq, 0 ≤ n := fun n hn => hb.2.2 n (List.mem_of_mem_drop hn)
+  have hsh : ∀ n ∈ effShape b sq, 0 ≤ n := fun n hn => hb.2.2 n (effShape_mem hn)
   split at he
   · simp only [List.mem_map] at he
     obtain ⟨p, hp, rfl⟩ := he
